@@ -480,7 +480,10 @@ def model_rule(ctx, res, only_index=False, rule="C06.model", ops=None):
             bad[key] = detail
 
     def world():
-        return objmodel.World(P)
+        W = objmodel.World(P)
+        # for index exactness the order a sort produces is irrelevant: do not depend on the comparator being interpretable
+        W.permute_instead_of_sort = only_index
+        return W
 
     def root(name):
         if name not in P.roots:
@@ -608,7 +611,7 @@ def model_rule(ctx, res, only_index=False, rule="C06.model", ops=None):
                 W = world()
                 oref, cid = W.mk_object(W.sh.st, before)
                 o = one(W.call(W.sh.st, root("root_object_sort"), [oref]), "sort")
-                check_state(W, o, cid, "sort", before, sorted(before), "")
+                check_state(W, o, cid, "sort", before, sorted(before) if not only_index else None, "")
             # -- bulk construction: from_vec keeps the entries and indexes every position
             if want_op("from_vec"):
                 W = world()
@@ -624,16 +627,19 @@ def model_rule(ctx, res, only_index=False, rule="C06.model", ops=None):
                 ren = {"k": objmodel.UKEYS[0], "m": objmodel.UKEYS[1]}
                 for variant in (before, [(ren[k], v) for k, v in before]):
                     W = world()
+                    if not (ops is not None and not only_index):
+                        W.permute_instead_of_sort = True  # C06 / C15 look at the index only: the canonical order is C09's / C10's
                     st = W.sh.st
                     oref, cid = W.mk_object(st, variant)
                     buf = st.new_obj(Top(None, "ryu-buffer"))
                     o = one(W.call(st, root("root_object_canonicalize_with"), [oref, Ref(("H", buf.id), ())]), "canonicalize_with")
-                    want = sorted(variant, key=lambda e: (objmodel.U16_RANK[e[0]], e[1]))
+                    strict_canon = ops is not None and not only_index  # C09 / C10: order and coverage; C06 / C15: the index only
+                    want = sorted(variant, key=lambda e: (objmodel.U16_RANK[e[0]], e[1])) if strict_canon else None
                     check_state(W, o, cid, "canonicalize_with", variant, want, "")
                     canon = [e[1] for e in o.events if e[0] == "canon"]
                     vals = sorted(v for _, v in variant)
                     got = sorted(c.tag[1] for c in canon if isinstance(c, Top) and isinstance(c.tag, tuple) and c.tag[0] == "val")
-                    if got != vals and not only_index:
+                    if got != vals and strict_canon:
                         fail("canonicalize_with", "values", "canonicalize_with on %s canonicalises the values %r, expected each of %r once" % (show(variant), got, vals))
             # -- queries
             for k in (KEYS + ("z",)) if want_op("queries") else ():
